@@ -203,7 +203,102 @@ def run(repo, rep):
     dis = [norm(v_) for v_ in (sel[0].test.values if isinstance(sel[0].test, ast.BoolOp) and isinstance(sel[0].test.op, ast.Or) else [sel[0].test])]
     rep.check("first_consumer_op.original_type == Op.FullyConnected" in dis and "ifm_dtype == DataType.uint8" in dis and len(dis) == 2, "C09-b", "ethosu/vela/weight_compressor.py:_prepare_scale_and_bias",
               "the float32 product (TFLite's uint8 / FULLY_CONNECTED rule) is selected by ifm dtype uint8 or original_type FullyConnected", f"selected by {dis}")
-    rep.floor("C09-b", 5)
+    # the add / sub derivation is carried out in double (TFLite add.cc / sub.cc: `const double twice_max_input_scale = 2 * std::max(...)`):
+    # the scales reach the helper as the reader's np.float32, and np.float32 (op) Python int / float stays float32 under NumPy >= 2
+    # (NEP 50), so every scale parameter must be widened before it enters arithmetic
+    fn = sc.func("simplified_elementwise_add_sub_scale")
+    params = [a.arg for a in fn.args.args if a.arg.endswith("_scale")]
+    if len(params) != 3:
+        raise AnalysisError(f"simplified_elementwise_add_sub_scale: scale parameters {params}")
+    widened_at = {}
+    for st in fn.body:
+        if isinstance(st, ast.Assign) and len(st.targets) == 1 and isinstance(st.targets[0], ast.Name) and isinstance(st.value, ast.Call) and call_name(st.value) in wide \
+                and len(st.value.args) == 1 and isinstance(st.value.args[0], ast.Name) and st.value.args[0].id == st.targets[0].id:
+            widened_at.setdefault(st.targets[0].id, st.lineno)
+    raw_use = []
+    for x in ast.walk(fn):
+        if isinstance(x, (ast.BinOp, ast.Compare)) or (isinstance(x, ast.Call) and call_name(x) in ("max", "min")):
+            ops = ([x.left, x.right] if isinstance(x, ast.BinOp) else [x.left] + list(x.comparators) if isinstance(x, ast.Compare) else list(x.args))
+            for o in ops:
+                if isinstance(o, ast.Name) and o.id in params and not (o.id in widened_at and widened_at[o.id] < x.lineno):
+                    raw_use.append((o.id, x.lineno))
+    rep.check(not raw_use, "C09-b", "ethosu/vela/scaling.py:simplified_elementwise_add_sub_scale", "every scale parameter is widened to double before it enters the add / sub derivation",
+              f"parameters used as they arrive: {sorted(set(n_ for n_, _ in raw_use))}: with the reader's np.float32 scales the whole derivation runs in float32 under NumPy >= 2 "
+              "(demonstrated end to end: ADD with scales 0.0123, 0.0456 -> 0.0789: OPA_SCALE (1158510848, 13), reference (1158510858, 13); OFM_SCALE off by 2^-24.9)")
+    adv = sc.func("advanced_elementwise_add_sub_scale")
+    cs_ = [c_ for c_ in ast.walk(adv) if isinstance(c_, ast.Call) and call_name(c_) == "simplified_elementwise_add_sub_scale"]
+    arith = [x for x in ast.walk(adv) if isinstance(x, ast.BinOp)]
+    rep.check(len(cs_) == 1 and not arith, "C09-b", "ethosu/vela/scaling.py:advanced_elementwise_add_sub_scale", "the advanced derivation does no arithmetic of its own on the scales (it selects min / max and delegates)",
+              f"{len(arith)} arithmetic expressions on possibly float32 scales")
+    # the 31-bit pooling divisor is never multiplied by a float32 value: the product would keep 24 bits (NumPy >= 2) and the +1 that makes
+    # the divisor round exact halves up is lost
+    gp_ = repo.mod("register_command_stream_generator").func("generate_ofm_scaling_for_pooling")
+
+    def reads_raw_scale(e):
+        """True if `e` reads a `.scale_f32` that is not the sole argument of a widening call."""
+        par = {}
+        for x in ast.walk(e):
+            for ch in ast.iter_child_nodes(x):
+                par[ch] = x
+        for x in ast.walk(e):
+            if isinstance(x, ast.Attribute) and x.attr == "scale_f32":
+                p_ = par.get(x)
+                if not (isinstance(p_, ast.Call) and call_name(p_) in wide and len(p_.args) == 1 and p_.args[0] is x):
+                    return True
+        return False
+
+    gmod = repo.mod("register_command_stream_generator")
+
+    def reaching_assign(name, at):
+        """The textually last assignment to `name` before `at` among the statements of the blocks that enclose `at`."""
+        anc = set()
+        cur = at
+        while cur is not None and cur is not gp_:
+            cur = gmod.parents.get(cur)
+            anc.add(cur)
+        best = None
+        for st in ast.walk(gp_):
+            if isinstance(st, ast.Assign) and len(st.targets) == 1 and isinstance(st.targets[0], ast.Name) and st.targets[0].id == name and st.lineno < at.lineno and gmod.parents.get(st) in anc:
+                if best is None or st.lineno > best.lineno:
+                    best = st
+        return best
+
+    def is_float32(name, at, depth=0):
+        st = reaching_assign(name, at)
+        if st is None or depth > 4:
+            return None
+        v = st.value
+        if isinstance(v, ast.Call) and call_name(v) in wide + ("int",):
+            return None
+        if reads_raw_scale(v):
+            return st
+        for x in ast.walk(v):
+            if isinstance(x, ast.Name) and x.id != name:
+                r_ = is_float32(x.id, st, depth + 1)
+                if r_ is not None:
+                    return r_
+        return None
+    divisors = {t.elts[0].id for st in ast.walk(gp_) if isinstance(st, ast.Assign) and isinstance(st.value, ast.Call) and (call_name(st.value) or "").endswith("quantise_pooling_scale")
+                for t in st.targets if isinstance(t, ast.Tuple) and isinstance(t.elts[0], ast.Name)}
+    if not divisors:
+        raise AnalysisError("generate_ofm_scaling_for_pooling: no (scale, shift) = quantise_pooling_scale(...) unpacking found")
+    nprod = 0
+    for x in ast.walk(gp_):
+        if isinstance(x, ast.BinOp) and isinstance(x.op, ast.Mult):
+            names = [o.id for o in (x.left, x.right) if isinstance(o, ast.Name)]
+            if any(n_ in divisors for n_ in names):
+                nprod += 1
+                other = [n_ for n_ in names if n_ not in divisors]
+                src_ = {n_: is_float32(n_, x) for n_ in other}
+                bad_ = [n_ for n_ in other if src_[n_] is not None]
+                rep.check(not bad_, "C09-b", "ethosu/vela/register_command_stream_generator.py:generate_ofm_scaling_for_pooling",
+                          f"`{str(norm(x))}` (product {nprod}): the 31-bit pooling divisor is multiplied by a double",
+                          f"`{bad_[0] if bad_ else ''}` comes from `{str(norm(src_[bad_[0]].value)) if bad_ else ''}`, which is float32 for the reader's float32 scales: the product keeps 24 bits under NumPy >= 2 "
+                          "(demonstrated: AVERAGE_POOL_2D 2x2: OFM_SCALE (2147483648, 33) instead of (2147483649, 33), 255 accumulators of an 8-bit window round differently from the reference; "
+                          "3x3: 3817748736 instead of 3817748709)")
+    if nprod < 3:
+        raise AnalysisError(f"generate_ofm_scaling_for_pooling: {nprod} products of the pooling divisor found (expected 3)")
+    rep.floor("C09-b", 10)
 
     # ---------------------------------------------------------------- c: add/sub siblings
     adv = sc.func("advanced_elementwise_add_sub_scale")
@@ -339,6 +434,7 @@ def run(repo, rep):
               "cached scale records are reused only when the whole scale key is equal", norm(hit[0].test) if hit else "")
     rep.floor("C09-e", 6)
     rule_round5(repo, rep)
+    rule_pool_scale_fits(repo, rep)
     rep.clause("C09-f", "a scale register write is elided only when both emitted words (multiplier payload and shift parameter) equal the last write [rule shared with C06-e]")
     from . import c06
 
@@ -423,3 +519,63 @@ def rule_round5(repo, rep):
             wrong.append((v_, ps[0].value))
     rep.check(not wrong, "C09-g", "ethosu/vela/numeric_util.py:round_down_log2", "round_down_log2(v) = floor(log2 v) on 15 probes", str(wrong[:3]))
     rep.floor("C09-g", 20)
+
+
+def rule_pool_scale_fits(repo, rep, rule="C09-h"):
+    """(h) the pooling OFM scale is a 32-bit multiplier and a 6-bit shift that denote rescale / window: generate_ofm_scaling_for_pooling is
+    interpreted on a grid of windows and scale ratios in the branches that multiply the maximised divisor by a rescale factor; the pair
+    handed to NPU_SET_OFM_SCALE must fit the register (the emitter masks silently) and denote the intended quotient."""
+    import math as _m
+
+    from ..absint import AObj, Interp, Unknown
+
+    rep.clause(rule, "pooling: the (scale, shift) pair written to OFM_SCALE fits its 32 + 6 bits and denotes (IFM scale / OFM scale) / window for every window size and scale ratio "
+               "(interpretation of generate_ofm_scaling_for_pooling; the emitter masks a wider value silently)")
+    gen = repo.mod("register_command_stream_generator")
+    site = "ethosu/vela/register_command_stream_generator.py:generate_ofm_scaling_for_pooling"
+
+    def num(f):
+        def g(i, a, k, n):
+            if not a or not isinstance(a[0], (int, float)):
+                return Unknown("math(?)")
+            return f(a[0])
+        return g
+
+    tr = num(lambda v: float(_m.trunc(v)))
+    ce = num(lambda v: float(_m.ceil(v)))
+    wd = num(float)
+    ext = {"math.frexp": num(_m.frexp), "numpy.trunc": tr, "np.trunc": tr, "math.ceil": num(_m.ceil), "numpy.ceil": ce, "np.ceil": ce,
+           "np.double": wd, "numpy.double": wd, "np.float64": wd, "numpy.float64": wd, "np.float32": wd, "numpy.float32": wd}
+    it = Interp(repo, gen, externs=ext)
+    wrong = None
+    pts = 0
+    for mode in ("quantisation", "rescale"):
+        for (kh, kw), ratio in ((k, r) for k in ((1, 1), (2, 2), (3, 3), (1, 4), (5, 5), (8, 8)) for r in (0.3, 1.0, 1.25, 2.0, 3.7, 4.0)):
+            def mk(kh=kh, kw=kw, ratio=ratio, mode=mode):
+                q1 = AObj("q", {"scale_f32": ratio if mode == "quantisation" else 1.0, "zero_point": 0})
+                q2 = AObj("q", {"scale_f32": 1.0, "zero_point": 0})
+                op = AObj("pool_op", {"kernel": AObj("k", {"height": kh, "width": kw}), "ifm": AObj("ifm", {"quantization": q1, "data_type": Unknown("dt")}), "ofm": AObj("ofm", {"quantization": q2}),
+                                      "activation": None, "fused_quantize": False, "rescale": None if mode == "quantisation" else ratio})
+                return [AObj("emit"), op], {}
+
+            ps = [p for p in it.run("generate_ofm_scaling_for_pooling", mk) if p.kind == "return"]
+            if not ps:
+                raise AnalysisError(f"generate_ofm_scaling_for_pooling: no returning path for window {kh}x{kw}, ratio {ratio} ({mode})")
+            for p in ps:
+                em = [c for c in p.args[0][0].calls if c[0] == "cmd1_with_offset"]
+                if len(em) != 1 or len(em[0][1]) != 3:
+                    raise AnalysisError(f"generate_ofm_scaling_for_pooling: OFM_SCALE emission not found on a path ({kh}x{kw}, {ratio}, {mode})")
+                sc_, sh_ = em[0][1][1], em[0][1][2]
+                if not isinstance(sc_, (int, float)) or not isinstance(sh_, int):
+                    raise AnalysisError(f"generate_ofm_scaling_for_pooling: symbolic OFM_SCALE ({sc_!r}, {sh_!r}) for window {kh}x{kw}, ratio {ratio} ({mode})")
+                pts += 1
+                want = ratio / (kh * kw)
+                fits = 0 <= sc_ < (1 << 32) and 0 <= sh_ < 64
+                close = fits and abs(sc_ / (1 << sh_) - want) <= want * 2.0 ** -20
+                if not (fits and close) and wrong is None:
+                    wrong = (kh, kw, ratio, mode, sc_, sh_, want)
+    rep.check(wrong is None, rule, site, f"OFM_SCALE = (scale, shift) with scale < 2^32, shift < 64 and scale / 2^shift = ratio / window ({pts} points: 6 windows x 6 ratios x 2 branches)",
+              (f"window {wrong[0]}x{wrong[1]}, ratio {wrong[2]} ({wrong[3]} branch): ({wrong[4]}, {wrong[5]})" + (" does not fit 32 bits and is masked by the emitter" if not wrong[4] < (1 << 32) else "")
+               + f"; intended value {wrong[6]:.6f}, register denotes {((int(wrong[4]) & 0xFFFFFFFF) / (1 << wrong[5])):.6f} "
+               "(demonstrated end to end: AVERAGE_POOL_2D 2x2 VALID, scales 0.0456 -> 0.0123: OFM_SCALE (3666436096, 33) = 0.4268 instead of 0.9268)") if wrong else "")
+    rep.floor(rule, 1)
